@@ -34,6 +34,10 @@ pub struct Case {
     pub kind: u8,
     pub seed: u64,
     pub frames: u8,
+    /// 128K: values the program then writes to the paging port with real OUTs (a value with bit 5
+    /// locks the latch; later writes must not change which bank is displayed)
+    #[serde(default)]
+    pub paging_writes: Vec<u8>,
 }
 
 pub fn content(kind: u8, seed: u64) -> Vec<u8> {
@@ -365,6 +369,41 @@ pub fn check(c: &Case, rec: &mut Rec) -> Result<(), String> {
             ));
         }
         rec.class("screen-bank-flipped-after-delivery");
+        // then a history of real paging-port writes: the bank displayed is the one selected by bit 3
+        // of the last *accepted* write (memory untouched all along)
+        if !c.paging_writes.is_empty() {
+            let (l0, _, _) = e.verif_paging();
+            let mut model = MemModel::new(machine, Vec::new());
+            model.latch = l0;
+            model.locked = false;
+            let mut prog: Vec<u8> = vec![0xF3, 0x01, 0xFD, 0x7F];
+            for v in &c.paging_writes {
+                prog.extend_from_slice(&[0x3E, *v, 0xED, 0x79]);
+                model.paging_write(*v);
+            }
+            prog.extend_from_slice(&[0x18, 0xFE]);
+            let end = 0x8020 + prog.len() as u16 - 2;
+            // code goes into bank 2 (always at 0x8000) directly
+            e.verif_ram_page_mut(2)[0x20..0x20 + prog.len()].copy_from_slice(&prog);
+            mach::set_regs(&mut e, &RegFile { pc: 0x8020, sp: 0xBF00, ..Default::default() });
+            if mach::run_to(&mut e, &[end], 3)?.is_none() {
+                return Err("harness: paging-write program did not finish".into());
+            }
+            let sb = model.screen_bank();
+            let shown: Vec<u8> = e.verif_ram_page(sb)[..6912].to_vec();
+            mach::run_frames(&mut e, 2)?;
+            rec.eval();
+            let (s0, s1) = (decode(&shown, false), decode(&shown, true));
+            let px = &e.screen_buffer().px;
+            if px[..] != s0[..] && px[..] != s1[..] {
+                let pos = px.iter().zip(s0.iter()).position(|(a, b)| a != b).unwrap();
+                return Err(format!(
+                    "path {:?}: after the paging-port writes {:02x?} (latch before {:#04x}; last accepted value {:#04x}{}) the ULA must display bank {}, but canvas pixel ({}, {}) shows {:#04x} where the decode of bank {} gives {:#04x}",
+                    c.path, c.paging_writes, l0, model.latch, if model.locked { ", locked" } else { "" }, sb, pos % 256, pos / 256, px[pos], sb, s0[pos]
+                ));
+            }
+            rec.class(if model.locked { "paging-writes-after-delivery:locked" } else { "paging-writes-after-delivery:unlocked" });
+        }
     }
     let distinct = {
         let mut s = [false; 256];
@@ -393,6 +432,9 @@ pub struct BeamCase {
     /// signed distance in T-states between the write and the moment the ULA reaches the byte;
     /// |margin| >= 64
     pub margin: i32,
+    /// 128K: the ULA shows bank 7 (screen-select bit set) and the CPU writes through 0xC000
+    #[serde(default)]
+    pub shadow: bool,
 }
 
 pub fn check_beam(c: &BeamCase, rec: &mut Rec) -> Result<(), String> {
@@ -400,7 +442,12 @@ pub fn check_beam(c: &BeamCase, rec: &mut Rec) -> Result<(), String> {
     let mut e = mk_emu(&EmuOpts::new(machine));
     let mut mm = MemModel::new(machine, mach::rom_images(machine));
     // plain screen: all pixels 0, attributes 0x38 (black ink on white paper)
-    let bank = if machine == Machine::K48 { 0 } else { 5 };
+    let shadow = c.shadow && machine == Machine::K128;
+    if shadow {
+        e.verif_set_paging(0x0F);
+        mm.latch = 0x0F;
+    }
+    let bank = if machine == Machine::K48 { 0 } else if shadow { 7 } else { 5 };
     {
         let p = e.verif_ram_page_mut(bank);
         for b in p[..6144].iter_mut() {
@@ -441,7 +488,8 @@ pub fn check_beam(c: &BeamCase, rec: &mut Rec) -> Result<(), String> {
         return Ok(());
     }
     e.verif_set_frame_clocks(start as usize);
-    let r = RegFile { pc: LOOP, sp: 0xBF00, hl: 0x4000 + off as u16, af: (value as u16) << 8, ..Default::default() };
+    let window: u16 = if shadow { 0xC000 } else { 0x4000 };
+    let r = RegFile { pc: LOOP, sp: 0xBF00, hl: window + off as u16, af: (value as u16) << 8, ..Default::default() };
     mach::set_regs(&mut e, &r);
     mach::step_over(&mut e, 1)?;
     let mut mem_before = vec![0u8; 6912];
@@ -473,6 +521,7 @@ pub fn check_beam(c: &BeamCase, rec: &mut Rec) -> Result<(), String> {
     }
     rec.class(if before { "written-before-beam" } else { "written-after-beam" });
     rec.class(if off < 6144 { "bitmap-byte" } else { "attribute-byte" });
+    rec.class(if machine == Machine::K48 { "beam:48k" } else if shadow { "beam:128k-bank7-through-0xC000" } else { "beam:128k-bank5" });
     rec.nontrivial(fnv(format!("{:?}", c).as_bytes()));
     Ok(())
 }
@@ -495,14 +544,19 @@ pub fn case_strategy() -> impl Strategy<Value = Case> {
         0u8..5,
         any::<u64>(),
         prop_oneof![3 => 1u8..6, 1 => 34u8..40],
+        prop_oneof![
+            1 => Just(Vec::new()),
+            2 => proptest::collection::vec(prop_oneof![Just(0x00u8), Just(0x08), Just(0x20), Just(0x28), Just(0x07), Just(0x0F), any::<u8>()], 1..=4),
+        ],
     )
-        .prop_map(|(machine, shadow, path, kind, seed, frames)| {
+        .prop_map(|(machine, shadow, path, kind, seed, frames, paging_writes)| {
             let path = match (machine, path) {
                 (Machine::K48, Path::LdirC000(_)) => Path::Ldir4000,
                 (Machine::K48, Path::PokeC000(_)) => Path::Poke,
                 (_, p) => p,
             };
-            Case { machine, shadow: shadow && machine == Machine::K128, path, kind, seed, frames }
+            let paging_writes = if machine == Machine::K128 { paging_writes } else { Vec::new() };
+            Case { machine, shadow: shadow && machine == Machine::K128, path, kind, seed, frames, paging_writes }
         })
 }
 
@@ -512,8 +566,9 @@ pub fn beam_strategy() -> impl Strategy<Value = BeamCase> {
         0u16..6912,
         any::<u8>(),
         prop_oneof![(64i32..400), (64i32..400).prop_map(|m| -m), Just(64), Just(-64)],
+        any::<bool>(),
     )
-        .prop_map(|(machine, offset, value, margin)| BeamCase { machine, offset, value, margin })
+        .prop_map(|(machine, offset, value, margin, shadow)| BeamCase { machine, offset, value, margin, shadow: shadow && machine == Machine::K128 })
 }
 
 pub fn run(run: &mut Run) {
@@ -533,7 +588,7 @@ pub fn replay(run: &mut Run, phase: &str, case: &serde_json::Value) -> Result<()
 }
 
 pub const LEVEL: &str = "exploration";
-pub const RULE: &str = "paths: 6912-byte screen contents (uniform; single bits with every attribute value; per-third address-bit patterns; BRIGHT+FLASH everywhere; sparse) delivered by one of {CPU LDIR through 0x4000, CPU LDIR through 0xC000 with bank 5/7 paged, execute_poke through 0x4000 or through 0xC000 with bank 5/7 paged, SCR load, SNA load, SZX load with stored or zlib pages, ROM LD-BYTES served by fast load} on 48K/128K with either 128K screen bank displayed, after different content had been on screen; then 1..40 frames with the CPU in DI;JR $ — every delivered canvas must equal the independent standard decode of the bank the ULA displays, with one FLASH phase per frame that toggles in runs of exactly 16 frames. beam-relative: one byte written by LD (HL),A at a chosen T >= 64 T before (after) the ULA reaches it must (must not) appear in the frame in progress and must appear in the next. non-trivial = content with >= 64 distinct byte values delivered by a path other than plain LDIR through 0x4000 (beam phase: every case); distinct = hash of the case";
+pub const RULE: &str = "paths: 6912-byte screen contents (uniform; single bits with every attribute value; per-third address-bit patterns; BRIGHT+FLASH everywhere; sparse) delivered by one of {CPU LDIR through 0x4000, CPU LDIR through 0xC000 with bank 5/7 paged, execute_poke through 0x4000 or through 0xC000 with bank 5/7 paged, SCR load, SNA load, SZX load with stored or zlib pages, ROM LD-BYTES served by fast load} on 48K/128K with either 128K screen bank displayed, after different content had been on screen; then 1..40 frames with the CPU in DI;JR $ — every delivered canvas must equal the independent standard decode of the bank the ULA displays, with one FLASH phase per frame that toggles in runs of exactly 16 frames; on the 128K the other screen bank is then shown by flipping the screen-select bit, and after a generated history of 1..4 real paging-port writes (lock values included) the bank selected by the last accepted write must be displayed. beam-relative: one byte written by LD (HL),A (through 0x4000, or on the 128K through 0xC000 into the displayed bank 7) at a chosen T >= 64 T before (after) the ULA reaches it must (must not) appear in the frame in progress and must appear in the next. non-trivial = content with >= 64 distinct byte values delivered by a path other than plain LDIR through 0x4000 (beam phase: every case); distinct = hash of the case";
 pub const ASSUMPTIONS: &[&str] = &[
     "decoder is written from the formula in the property; canvas read from the harness FrameBuffer after each completed frame",
     "ULA reaches byte (line y, column c) at T = first-pixel T + y * line length + 4c; only writes at least 64 T away are judged",
